@@ -64,6 +64,11 @@ def gen_cases(rng, tier, scale):
         for hk in (1, 2, 3):
             cases.append(rcase(f'hk{k3}_{hk}', tpl, d, pre=['probes', f'hooks {hk}', 'strict 1'], partials={'p': '[{{k}}{{z}}]'}, entry=0,
                                kind='hookstrict', path=path, tags=['strict-with-hooks']))
+    # an else-chain whose LAST link is each/with on a missing value and that has no final else: still MissingVariable
+    for k4, (tpl, d, path) in enumerate([('{{#if a}}A{{else with nope}}B{{/if}}', {}, 'nope'), ('{{#if z}}A{{else each nope}}B{{/if}}', {}, 'nope'),
+                                         ('{{#if a}}A{{else if b}}B{{else with o.zz}}C{{/if}}', {'o': {}}, 'o.zz'),
+                                         ('{{#each l}}{{#if this}}y{{else each ../nope}}n{{/if}}{{/each}}', {'l': [0]}, '../nope')]):
+        cases.append(rcase(f'cl{k4}', tpl, d, pre=['strict 1'], entry=4, kind='hookstrict', path=path, tags=['chain-last-link-missing']))
     return cases
 
 FIXED = {0: ('err', 'MissingVariable', '-'), 1: ('err', 'MissingVariable', '-'), 2: ('ok', ''),
